@@ -5,6 +5,7 @@ cd "$(dirname "$0")/.."
 python3 tools/gen_consts.py
 [ -f tools/srcfacts.py ] && python3 tools/srcfacts.py || true
 [ -f tools/c2gallina.py ] && python3 tools/c2gallina.py || true
+[ -f tools/c2imp.py ] && python3 tools/c2imp.py || true
 cd coq && coq_makefile -f _CoqProject -o Makefile >/dev/null && cd ..
 tools/build_model.sh
 tools/build_harness.sh asan >/dev/null
